@@ -56,6 +56,7 @@ const (
 	opRemoveBad
 	opExpireBad
 	opTakeover
+	opExpire0 // an expiry mark of zero: replaces (clears) an earlier mark, still an error on an absent tuple
 )
 
 type op struct {
@@ -64,7 +65,7 @@ type op struct {
 }
 
 func (o op) String() string {
-	n := []string{"get", "write1@T1", "write2@T2", "remove", "expire1h", "removeOldest", "get-wrong-arity", "remove-wrong-arity", "expire-wrong-arity", "taken-over-by-reloaded-declaration"}[o.k]
+	n := []string{"get", "write1@T1", "write2@T2", "remove", "expire1h", "removeOldest", "get-wrong-arity", "remove-wrong-arity", "expire-wrong-arity", "taken-over-by-reloaded-declaration", "expire0"}[o.k]
 	if o.k == opOldest || o.k == opTakeover {
 		return n
 	}
@@ -88,7 +89,7 @@ func mkOps(arity int) []op {
 		tl = [][]string{{"\\", "-"}, {"-\\", ""}, {"-", "-"}}
 	}
 	var ops []op
-	for _, k := range []opKind{opGet, opW1, opW2, opRemove, opExpire} {
+	for _, k := range []opKind{opGet, opW1, opW2, opRemove, opExpire, opExpire0} {
 		for _, t := range tl {
 			ops = append(ops, op{k, t})
 		}
@@ -205,6 +206,12 @@ func (m *model) apply(o op) (wantErr bool) {
 			return true
 		}
 		m.e[i].expiry = time.Hour
+	case opExpire0:
+		i := m.find(o.t)
+		if i < 0 {
+			return true
+		}
+		m.e[i].expiry = 0
 	case opOldest:
 		best := -1
 		for i, e := range m.e {
@@ -285,6 +292,8 @@ func realApply(c cfg, m *metrics.Metric, o op) error {
 		return m.RemoveDatum(o.t...)
 	case opExpire, opExpireBad:
 		return m.ExpireDatum(time.Hour, o.t...)
+	case opExpire0:
+		return m.ExpireDatum(0, o.t...)
 	case opOldest:
 		m.RemoveOldestDatum()
 	}
@@ -508,5 +517,5 @@ func main() {
 	c.Set("exhaustive", exh)
 	c.Set("depth_bound", maxDepth)
 	c.Assume = []string{"states are de-duplicated on the model state TOGETHER WITH a reflective dump of the complete real Metric object graph (unexported fields included, pointer identities canonicalised, wall-clock creation stamps masked), so hidden implementation state cannot be merged away", "timestamps are set explicitly (T1<T2) except creation stamps, which read the wall clock and are only classified as 'later than T2'"}
-	c.Finish("explicit-state BFS over operation histories {get, write1@T1, write2@T2, remove, expire, removeOldest, wrong-arity get/remove/expire, take-over by a reloaded declaration through Store.Add} on tuples of a small universe, per metric kind/type/arity; every transition executes the real metric and compares enumeration, LabelValues, JSON, errors and slice/index consistency with an ordered-list model; distinct_nontrivial = distinct model states reached")
+	c.Finish("explicit-state BFS over operation histories {get, write1@T1, write2@T2, remove, expire(1h), expire(0), removeOldest, wrong-arity get/remove/expire, take-over by a reloaded declaration through Store.Add} on tuples of a small universe, per metric kind/type/arity; every transition executes the real metric and compares enumeration, LabelValues, JSON, errors and slice/index consistency with an ordered-list model; distinct_nontrivial = distinct model states reached")
 }
